@@ -48,11 +48,12 @@ var Check = &run.Check{
 		"and the second file declares one struct/interface/exported function resp. class/capitalised function under a name the first file declares too, with members of its own - Go: same package clause, e.g. two `package main`, in 2/3 of these; " +
 		"the flattened model then has to list such a name as often as it is declared, each entry with its own members); " +
 		"even index: Python module (imports `import a`, `import a.b.c`, `import a.b as c`, `import a, b`, `from a import b, c`, `from a import b as c`, `from a import (b, c,)` on one or several lines, `from . import x`, `from ..p import x`, `from a import *`; " +
-		"0-2 decorated classes with 0-3 decorated methods, decorated/async functions, nested defs up to depth 2, class attributes, docstrings and strings that look like declarations, comments, multi-line bracketed statements, indent 2/4/tab, CRLF, no final newline). " +
+		"0-2 decorated classes with 0-3 decorated methods, decorated/async functions, nested defs up to depth 2, class attributes, docstrings and strings that look like declarations, comments, multi-line bracketed statements, indent 2/4/tab, CRLF (1 in 8), no final newline, empty and blank-only lines inside indented blocks (1 in 3)). " +
 		"Modules stay within 30 lexer events (logical lines + INDENT + DEDENT); 1 module in 40 is 'large' (median 69, up to ~300 events; either structured or 33-70 one-line declarations) and is parsed only in fresh child processes. " +
 		"Every module first has to pass coca's own Python parser (languages/python + counting error listener); a reject is inconclusive. " +
 		"odd index: Go file accepted by go/parser (0-5 imports in 3 layouts, aliases, `_`; 1-6 structs with 0-5 field lines incl. `a, b T`, tags, embedded fields, pointer/slice/map/func/chan/qualified types; 0-3 interfaces incl. empty and embedding ones; single or grouped type declarations; " +
-		"import paths as interpreted or raw string literals; blank-identifier parameters and fields; methods on value/pointer/unnamed receivers placed below or above their type; 0-4 free functions incl. `a, b T` and variadic parameters, named results, declarations without a body; bodies of package-qualified and receiver/parameter call statements, unqualified calls, defer, := and = assignments, returns). " +
+		"import paths as interpreted or raw string literals; blank-identifier parameters and fields; methods on value/pointer/unnamed receivers placed below or above their type; 0-4 free functions incl. `a, b T` and variadic parameters, named results, declarations without a body; bodies of package-qualified and receiver/parameter call statements (one in five with a function literal as last argument that holds further call statements, nested up to depth 2), unqualified calls, defer, := and = assignments, returns; " +
+		"one type expression in 14 (parameters, struct fields) is an interface type written in place with 1-2 methods). " +
 		"Observed: pyapp.PythonIdentApp.Analysis, goapp.GoIdentApp.Analysis or ast_go.CocagoParser.ProcessString per file; analysis.CommonAnalysis on the directory; for every 4th (quick) / 8th (thorough) case of each language the real mains `coca-python analysis -p` / `coca-golang analysis -p` (coca_reporter/pydeps.json, godeps.json). " +
 		"non-trivial = Python: a class with a method + a decorator + an import; Go: >= 2 type declarations + a method + an asserted call statement; distinct = hash of the structural shape of the primary file (kinds, counts, order, layout; no names) and the number of files",
 	Assumptions: []string{
@@ -61,6 +62,8 @@ var Check = &run.Check{
 		"a parameter or field named with the blank identifier is a parameter / field: it is demanded as an entry named _, and a parameter list is demanded with its written arity (functions, methods, interface methods); unnamed parameters are not generated",
 		"an import path written as a raw string literal is demanded under the path without any quote character",
 		"a function declaration without a body is demanded as a function with its parameters",
+		"a call statement written inside a function literal that is an argument of a call statement is a call statement of the enclosing function: demanded exactly once there; an interface type written in place (parameter / field type) is not a declaration: nothing is demanded for it, the declared types around it keep their entries",
+		"a Python module that coca's parser rejects although the same declarations in plain layout (LF, 4 blanks, no blank lines inside blocks) are accepted is judged, not skipped: only its layout differs; mismatches of cases with a CRLF module carry the suffix @case-with-CRLF-module (the two pinned import forms are not written into CRLF modules)",
 		"nested defs may additionally be listed anywhere; unplanted names are not counted against the model",
 		"only calls written as a statement with a package qualifier or a receiver/parameter variable are asserted; deferred, unqualified, right-hand-side and returned calls are generated but free",
 		"an import's own name is its path (Go: as written or with '/' replaced by '.', the front-end's convention) resp. its dotted module name (Python); aliases are not asserted except that a from-imported name must be listed as the name, the alias or `name as alias`",
@@ -165,17 +168,21 @@ func FreshMain(args []string) bool {
 }
 
 func freshPy(c *run.Ctx, mode string, m *gopygen.PyModule) (*freshResult, error) {
+	return freshPyText(c, mode, m.File, m.Text)
+}
+
+func freshPyText(c *run.Ctx, mode string, file, text string) (*freshResult, error) {
 	dir := filepath.Join(c.Scratch(), "fresh")
 	os.MkdirAll(dir, 0o755)
 	src := filepath.Join(dir, "module.py")
 	out := filepath.Join(dir, mode+".json")
-	if err := ioutil.WriteFile(src, []byte(m.Text), 0o644); err != nil {
+	if err := ioutil.WriteFile(src, []byte(text), 0o644); err != nil {
 		return nil, err
 	}
 	os.Remove(out)
 	args := []string{"--c20-py-" + mode, src}
 	if mode == "analyse" {
-		args = append(args, m.File)
+		args = append(args, file)
 	}
 	args = append(args, out)
 	res := common.RunCLI(os.Args[0], dir, nil, args...)
@@ -188,6 +195,19 @@ func freshPy(c *run.Ctx, mode string, m *gopygen.PyModule) (*freshResult, error)
 		return nil, err
 	}
 	return &fr, nil
+}
+
+// acceptsPy runs the parser-acceptance filter on a text of module m (large modules: in a fresh child process).
+func acceptsPy(c *run.Ctx, m *gopygen.PyModule, text string) (ok bool, nerr int, first string, err error) {
+	if m.Large {
+		fr, ferr := freshPyText(c, "accept", m.File, text)
+		if ferr != nil {
+			return false, 0, "", ferr
+		}
+		return fr.Errors == 0 && fr.Panic == "", fr.Errors, fr.First + fr.Panic, nil
+	}
+	ok, nerr, first = pyAccepts(text)
+	return ok, nerr, first, nil
 }
 
 func goAccepts(name, text string) error {
@@ -337,35 +357,42 @@ func pyCase(c *run.Ctx, o *run.Outcome, useCLI bool) {
 	var files []fileText
 	var accepted []*gopygen.PyModule
 	for i, m := range mods {
-		var ok bool
-		var nerr int
-		var first string
-		if m.Large {
-			fr, err := freshPy(c, "accept", m)
-			if err != nil {
-				o.SetInconclusive("fresh-process acceptance filter failed: " + err.Error())
-				return
-			}
-			ok, nerr, first = fr.Errors == 0 && fr.Panic == "", fr.Errors, fr.First+fr.Panic
-		} else {
-			ok, nerr, first = pyAccepts(m.Text)
+		ok, nerr, first, err := acceptsPy(c, m, m.Text)
+		if err != nil {
+			o.SetInconclusive("fresh-process acceptance filter failed: " + err.Error())
+			return
 		}
 		if !ok {
 			o.Count("py_modules_rejected_by_coca_parser", 1)
 			if m.LexEvents > gopygen.PySmallBudget+1 {
 				o.Count("py_rejected_with_more_than_31_lexer_events", 1)
 			}
-			if i == 0 {
-				witness["files"] = []fileText{{m.File, m.Text}}
-				size := "small"
-				if m.Large {
-					size = "large"
+			// Is it the declarations coca's grammar cannot read, or only the way they are laid out? The same module
+			// in the plainest layout (LF, 4 blanks, final newline, no blank lines inside blocks) decides: when that
+			// text is accepted, line ends / blank lines / indentation are what the parser stumbles over, the module
+			// is inside the quantifier ("any Python module built from ...") and its model is judged like any other.
+			layoutOnly := false
+			if canon := m.CanonicalText(); canon != m.Text {
+				if cok, _, _, cerr := acceptsPy(c, m, canon); cerr == nil && cok {
+					layoutOnly = true
 				}
-				o.SetInconclusive(fmt.Sprintf("generator reject: coca's Python parser reports syntax errors on a valid %s module", size))
-				o.Sample = map[string]interface{}{"rejected_module": m.Text, "lexer_events": m.LexEvents, "errors": nerr, "first_error": first}
-				return
 			}
-			continue
+			if layoutOnly {
+				o.Count("py_modules_rejected_only_for_their_layout_and_judged", 1)
+				witness["parser_errors_"+m.File] = fmt.Sprintf("%d syntax error(s), first: %s (the same declarations in plain LF layout are accepted)", nerr, first)
+			} else {
+				if i == 0 {
+					witness["files"] = []fileText{{m.File, m.Text}}
+					size := "small"
+					if m.Large {
+						size = "large"
+					}
+					o.SetInconclusive(fmt.Sprintf("generator reject: coca's Python parser reports syntax errors on a valid %s module", size))
+					o.Sample = map[string]interface{}{"rejected_module": m.Text, "lexer_events": m.LexEvents, "errors": nerr, "first_error": first}
+					return
+				}
+				continue
+			}
 		}
 		accepted = append(accepted, m)
 		files = append(files, fileText{m.File, m.Text})
@@ -602,6 +629,12 @@ func pyDimensions(o *run.Outcome, m *gopygen.PyModule) {
 	}
 	if m.CRLF {
 		o.Count("dim_py_crlf", 1)
+	}
+	if m.BlankInBlocks {
+		o.Count("dim_py_blank_lines_inside_blocks", 1)
+	}
+	if m.CRLF && (m.BlankInBlocks || strings.Contains(m.Text, "\r\n\r\n"+m.Indent)) {
+		o.Count("dim_py_crlf_with_blank_line_inside_a_block", 1)
 	}
 	if m.Indent == "\t" {
 		o.Count("dim_py_tab_indent", 1)
@@ -874,9 +907,19 @@ func goDimensions(o *run.Outcome, f *gopygen.GoFile) {
 				o.Count("dim_go_multi_name_param", 1)
 			}
 		}
-		for _, s := range fn.Body {
+		for _, s := range fn.AllStmts() {
 			o.Count("dim_go_stmt_"+s.Kind, 1)
+			if len(s.Inner) > 0 {
+				o.Count("dim_go_call_statement_with_function_literal_argument", 1)
+			}
+			if s.InCallback && (s.Kind == gopygen.StCallPkg || s.Kind == gopygen.StCallRecv) {
+				o.Count("dim_go_call_statements_inside_function_literals", 1)
+			}
 		}
+	}
+	o.Count("dim_go_inline_interface_types_with_methods", f.InlineIfaces)
+	if f.InlineIfaces > 0 {
+		o.Count("dim_go_files_with_inline_interface_type", 1)
 	}
 	o.Seen("go_import_layout", fmt.Sprint(f.ImportStyle))
 }
